@@ -109,9 +109,12 @@ class MrpPairVerifyProcedure(PairVerifyProcedure):
         msg = messages.crypto_pairing(
             {TlvValue.SeqNo: b"\x03", TlvValue.EncryptedData: encrypted_data}
         )
-        await self.protocol.send_and_receive(msg, generate_identifier=False)
+        resp = await self.protocol.send_and_receive(msg, generate_identifier=False)
 
-        # TODO: check status code
+        # Device must acknowledge with M4 and no error
+        pairing_data = _get_pairing_data(resp)
+        if pairing_data.get(TlvValue.SeqNo) != b"\x04":
+            raise exceptions.AuthenticationError("unexpected verify response")
 
         return True
 
